@@ -469,9 +469,40 @@ def run(tier, seed, which="C03"):
             iob["replay_path"] = pth
             iob["replay"] = {"path": pth, "outcome": "model-only", "message": "saved values and crash point for the raft index file (a native run would need a write interposer)"}
         index_ob = iob
+        from . import c04snap
+        snap_obs = c04snap.run(tier, seed)
     from lib import native
     import os
+    if which == "C04" and not os.environ.get("VERIF_NO_NATIVE"):
+        from .common import native_scenarios
+        cob = snap_obs[0]
+        if cob.get("verdict") == "violation":
+            n = len((cob.get("counterexample") or {}).get("catalogue_ids", [0, 0])) + 1
+            rr = native_scenarios("C04", "violation", ["snapshot_catalogue_crash_image_%d" % n], cob["message"], {"obligation": cob["harness"], "model": cob.get("counterexample")})
+            cob["replay_path"] = rr["path"]
+            cob["replay"] = {"path": rr["path"], "outcome": rr["outcome"], "message": rr["message"]}
+            if "catalogued-snapshot-missing" in cob.get("tags", []):
+                if rr["outcome"] != "reproduced":
+                    cob.update({"verdict": "inconclusive", "message": "engine-S counterexample (%s) did not reproduce on the real index / snapshot managers (%s %s)" % (cob["message"], rr["outcome"], rr["message"])})
+                else:
+                    cob["message"] = "%s [real RaftIndexManager + RaftSnapshotManager, crash image: %s]" % (cob["message"], rr["message"][:400])
+            else:
+                cob["replay"]["outcome"] = "model-only" if rr["outcome"] != "reproduced" else rr["outcome"]
+        elif cob.get("verdict") == "discharged":
+            nv = native_scenarios("C04", "validate", ["snapshot_catalogue_crash_image_2", "snapshot_catalogue_crash_image_3", "snapshot_catalogue_crash_image_4"])
+            info["translator_validation_snapshot_catalogue"] = {"outcome": nv["outcome"], "message": nv["message"], "path": nv["path"]}
+            if nv["outcome"] != "passed":
+                cob.update({"verdict": "inconclusive", "message": "the catalogue obligation is discharged but the real index / snapshot managers lose the last catalogued snapshot in a crash image: %s" % nv["message"]})
+        oob = snap_obs[1]
+        if oob.get("verdict") == "violation":
+            from lib import native as _n
+            pth = _n.write_replay("C04", "c04", "model", [], {"engine": "smt", "mode": "model-only", "obligation": oob["harness"], "message": oob["message"], "model": oob.get("counterexample")})
+            oob["replay_path"] = pth
+            oob["replay"] = {"path": pth, "outcome": "model-only", "message": "emission order of a log compaction (a native run would need a kill between two actor messages)"}
     if os.environ.get("VERIF_NO_NATIVE"):
+        if which == "C04":
+            obligations.append(index_ob)
+            obligations.extend(snap_obs)
         # development self-test against a scratch copy of the sources (VERIF_REPO): the native build is of /repo, skip it
         for ob in obligations:
             ob.pop("_ops", None)
@@ -544,6 +575,7 @@ def run(tier, seed, which="C03"):
     val = native_validate(obligations, seed, 6 if tier == "quick" else 24)
     if which == "C04":
         obligations.append(index_ob)
+        obligations.extend(snap_obs)
     if which == "C02":
         obligations.extend(extra_obs)
     for ob in obligations:
